@@ -86,3 +86,99 @@ def mk_model(E, n, m, num_pts, npt_so_far, with_h=False, xr=True, with_save=None
     return M, ghost
 
 
+
+
+# ---------------------------------------------------------------------------------------
+# Controller / solver state
+
+PRESETS = {
+    # name -> (objfun_has_noise, user overrides)
+    'default': (False, {}),
+    'noise': (True, {}),
+    'hard-restarts': (False, {'restarts.use_restarts': True, 'restarts.use_soft_restarts': False}),
+    'soft-restarts': (False, {'restarts.use_restarts': True, 'restarts.use_soft_restarts': True}),
+    'soft-restarts-moreopts': (False, {'restarts.use_restarts': True, 'restarts.use_soft_restarts': True,
+                                       'restarts.soft.move_xk': False, 'restarts.increase_npt': True}),
+    'regression-momentum': (False, {'regression.num_extra_steps': 1, 'regression.momentum_extra_steps': True}),
+    'regression-geom': (False, {'regression.num_extra_steps': 1}),
+    'growing': (False, {'growing.ndirs_initial': 1, 'growing.num_new_dirns_each_iter': 1, 'growing.do_geom_steps': True}),
+    'growing-perturb': (False, {'growing.ndirs_initial': 1, 'growing.full_rank.use_full_rank_interp': False,
+                                'growing.perturb_trust_region_step': True}),
+    'growing-safety-geom': (False, {'growing.ndirs_initial': 1, 'growing.safety.full_geom_step': True}),
+    'growing-reduce-delta': (False, {'growing.ndirs_initial': 1, 'growing.safety.reduce_delta': True, 'growing.reset_delta': True}),
+    'diagnostics': (False, {'logging.save_diagnostic_info': True, 'logging.save_poisedness': False}),
+}
+
+
+def mk_params(E, n, npt, maxfun, preset='default', small_history=True):
+    noise, over = PRESETS[preset]
+    P = E.get('ParameterList')(n, npt, maxfun, objfun_has_noise=noise)
+    for k, v in over.items():
+        P(k, new_value=v)
+    if small_history:
+        # bounded configuration: short histories (user-settable parameters) keep list lengths concrete and small
+        P.params["restarts.soft.max_fake_successful_steps"] = 2
+        P.params["restarts.auto_detect.history"] = 3
+        P.params["slow.history_for_slow"] = 2
+    return P
+
+
+class EvalLog(object):
+    """ghost log of objective evaluations made during one step"""
+    def __init__(self):
+        self.calls = []          # dicts: x, r (vector), idx
+
+
+def mk_objfun(E, m, log, xr=False, raise_at=None):
+    """objective stub: fresh residual vector per call"""
+    def objfun(x, *args):
+        k = len(log.calls)
+        if raise_at is not None and k == raise_at:
+            log.calls.append({'x': x.copy(), 'r': None, 'raised': True})
+            raise UserObjfunError("user objective raised at call %d" % k)
+        r = E.vec('f%d_' % k, m, xr=xr)
+        log.calls.append({'x': x.copy(), 'r': r})
+        return r
+    return objfun
+
+
+class UserObjfunError(Exception):
+    pass
+
+
+def mk_controller(E, n, m, num_pts, npt_so_far, preset='default', with_h=False, xr=False, with_save=None,
+                  maxfun_hi=None, objfun=None):
+    """
+    An arbitrary Controller state satisfying INV (see DESIGN section 3):
+      1 <= nx <= nf <= maxfun; eval numbers of occupied slots in [1, nx];
+      0 < rhoend <= rho <= rhobeg, rho <= delta <= 1e10;  model per mk_model.
+    """
+    np = E.np
+    maxfun = E.int('maxfun', 1, maxfun_hi)
+    params = mk_params(E, n, num_pts, maxfun, preset)
+    M, ghost = mk_model(E, n, m, num_pts, npt_so_far, with_h=with_h, xr=xr, with_save=with_save)
+    Controller = E.get('Controller')
+    rhobeg = E.real('rhobeg', npy=False)
+    rhoend = E.real('rhoend', npy=False)
+    x0 = M.xbase + M.points[0, :]
+    C = Controller(objfun, (), M.xbase.copy(), M.fval_v[0, :].copy(), 1, M.xbase + M.sl, M.xbase + M.su, [], num_pts,
+                   rhobeg, rhoend, 0, 0, maxfun, params, None, False, h=M.h, lh=(E.real('lh', npy=False, lo=0) if with_h else None),
+                   argsh=(), prox_uh=((lambda x, u, *a: x) if with_h else None), argsprox=())
+    M.abs_tol = params("model.abs_tol")
+    M.rel_tol = params("model.rel_tol")
+    C.model = M
+    C.nf = E.int('nf', 1, None)
+    C.nx = E.int('nx', 1, None)
+    E.assume(E.all([C.nx <= C.nf, C.nf <= maxfun]))
+    E.assume(E.all([M.eval_num[k] <= C.nx for k in range(npt_so_far)]))
+    if M.objsave is not None:
+        E.assume(M.eval_num_save <= C.nx)
+    C.delta = E.real('delta', npy=False)
+    C.rho = E.real('rho', npy=False)
+    E.assume(E.all([0 < rhoend, rhoend <= C.rho, C.rho <= rhobeg, C.rho <= C.delta, C.delta <= E.const(10 ** 10)]))
+    C.diffs = [E.real('diff%d' % i, npy=False, lo=0) for i in range(3)]
+    C.last_successful_iter = E.int('lsi', 0, None)
+    C.last_successful_run = E.int('lsr', 0, None)
+    C.last_run_fopt = E.real('lrf', npy=False)
+    C.num_slow_iters = E.int('nslow', 0, None)
+    return C, M, ghost, params
